@@ -1,8 +1,5 @@
 From Coq Require Import Bool.
 Require Import PonyV.Model.C20Decisions.
 
-Lemma rowcount0_except_known ds : ds <> None -> rowcount0_outcome ds = rowcount0_spec ds.
-Proof. destruct ds as [[|]|]; cbn; congruence. Qed.
-
-Lemma rowcount0_interactive_refuted : rowcount0_outcome None <> rowcount0_spec None.
-Proof. cbn. discriminate. Qed.
+Lemma rowcount0_ok ds : rowcount0_outcome ds = rowcount0_spec ds.
+Proof. destruct ds as [[|]|]; reflexivity. Qed.
